@@ -1,4 +1,6 @@
 """C10 — window stacking is exact and never crosses a series boundary."""
+import random as pyrandom
+
 import numpy as np
 
 import common
@@ -28,12 +30,22 @@ def gen_case(rng):
     N = rng.randint(1, 6)
     ns = rng.choice([1, 1, 2, 3, 4, 6])
     kind = rng.choice(["bits", "bits", "float32", "int", "fortran", "special", "strided", "reversed", "cancel"])
+    # views whose strides say nothing about the layout: a column vector made from a 1-D signal (`v[:, None]`, `row.T`:
+    # a zero or arbitrary stride on the unit axis, flagged contiguous BOTH ways), a column range of a wider table, one
+    # column broadcast over N sensors (stride 0)
+    r_lay = pyrandom.Random(rng.getrandbits(32))
+    if r_lay.random() < 0.2:
+        kind = r_lay.choice(["unit-dim", "unit-dim", "colslice", "broadcast"])
+        if kind == "unit-dim":
+            N = 1
     series = []
     same_T = W + rng.randint(1, 12) if (ns >= 2 and rng.random() < 0.3) else None    # equal-shaped series, several windows each
     for _ in range(ns):
         T = same_T if same_T is not None else W + rng.choice([0, 0, 1, 2, rng.randint(0, 40)])
-        if kind in ("bits", "fortran", "strided", "reversed"):
+        if kind in ("bits", "fortran", "strided", "reversed", "unit-dim", "colslice"):
             cells = [[rng.getrandbits(64) for _ in range(N)] for _ in range(T)]
+        elif kind == "broadcast":
+            cells = [[rng.getrandbits(64)] * N for _ in range(T)]
         elif kind == "cancel":
             # rows whose readings cancel exactly (+a, -a; quantised signals), all-zero rows and rows of -0.0 among ordinary ones
             import struct as _st
@@ -63,8 +75,27 @@ def gen_case(rng):
 
 
 def to_array(cells, kind):
-    if kind in ("bits", "special", "fortran", "strided", "reversed", "cancel"):
+    if kind in ("bits", "special", "fortran", "strided", "reversed", "cancel", "unit-dim", "colslice", "broadcast"):
         a = np.array(cells, dtype=np.uint64).view(np.float64).reshape(len(cells), -1)
+        if kind == "unit-dim" and a.shape[1] == 1:
+            v = np.ascontiguousarray(a[:, 0])
+            form = len(cells) % 4
+            if form == 0:
+                a = v[:, None]                                   # the usual way to make a column of a 1-D signal
+            elif form == 1:
+                a = v.reshape(1, -1).T                           # a transposed row
+            elif form == 2:
+                a = np.lib.stride_tricks.as_strided(v, shape=(v.shape[0], 1), strides=(v.strides[0], 0))
+            else:
+                wide = np.zeros((v.shape[0], 3))
+                wide[:, 1] = v
+                a = wide[:, 1:2]                                 # one column of a wider table
+        elif kind == "colslice":
+            wide = np.full((a.shape[0], a.shape[1] + 3), 7.25)
+            wide[:, 2:2 + a.shape[1]] = a
+            a = wide[:, 2:2 + a.shape[1]]
+        elif kind == "broadcast" and a.shape[1] >= 1:
+            a = np.broadcast_to(np.ascontiguousarray(a[:, :1]), a.shape)   # read-only, stride 0 along the sensors
         if kind == "fortran":
             a = np.asfortranarray(a)
         elif kind == "strided":            # every other row / column of a larger buffer
